@@ -343,6 +343,13 @@ func (s *serverSocket) onError(err error) {
 func (s *serverSocket) onClose(reason Reason) {
 	s.debug.Log("Going to close the socket if it is not already closed. Reason", reason)
 
+	// A socket that has not connected yet has nothing to close - and must still be closable once it
+	// has: the one-time guard below is not used up by a close that comes too early (a server shutting
+	// down while the socket is being admitted, for example).
+	if !s.Connected() {
+		return
+	}
+
 	// Server socket is one-time, it cannot be reconnected.
 	// We don't want it to close more than once,
 	// so we use sync.Once to avoid running onClose more than once.
